@@ -204,6 +204,63 @@ let ck_cmd (args : string list) : string =
     "out:" ^ String.concat "," out
   | _ -> "bad-command"
 
+(* ---------- LK: openers of one database directory (Misc/Lock.v, variant LockInst.current) ---------- *)
+let lk_state = ref s0
+(* in-process opener ids whose Tree was dropped outside its runtime and whose runtime still exists
+   (the harness keeps that runtime under the same id, whether or not the store had been closed before) *)
+let lk_zombies : int list ref = ref []
+let lk_opts (s : string) : oopts =
+  List.fold_left (fun o kv -> match kv with
+      | "" | "-" | "plain" | "nofoc" -> o
+      | "vlog" -> { o with op_vlog = true }
+      | "ver" -> { o with op_vlog = true; op_ver = true }
+      | "bad" -> { o with op_valid = false }
+      | _ -> failwith "unknown option") { op_valid = true; op_vlog = false; op_ver = false } (String.split_on_char ',' s)
+let lk_answer = function AOk -> "ok" | ARefused -> "refused" | AInvalid -> "invalid" | ABusy -> "busy" | ANoop -> "noop" | AErr -> "err"
+let lk_kid p = nat_of_int (100 + int_of_string p)
+let lk_cmd (args : string list) : string =
+  let st (s, a) = lk_state := s; lk_answer a in
+  let exists o = match pc_of !lk_state o with Some _ -> true | None -> false in
+  match args with
+  | ["new"] -> lk_state := s0; lk_zombies := []; "ok"
+  | ["open"; i] | ["open"; i; _] when List.mem (int_of_string i) !lk_zombies -> "busy"
+  | ["open"; i] -> st (do_open current !lk_state (ni i) O (lk_opts "-"))
+  | ["open"; i; o] -> st (do_open current !lk_state (ni i) O (lk_opts o))
+  | ["spawn"; p] -> st (do_open current !lk_state (lk_kid p) (ni p) (lk_opts "-"))
+  | ["spawn"; p; o] -> st (do_open current !lk_state (lk_kid p) (ni p) (lk_opts o))
+  | ["close"; i] -> st (do_close current !lk_state (ni i))
+  | ["drop"; i] -> st (do_drop current !lk_state (ni i))
+  | ["dropout"; i] ->
+    let r = st (do_drop_detached current !lk_state (ni i)) in
+    if r = "ok" then lk_zombies := int_of_string i :: !lk_zombies; r
+  | ["rtgone"; i] ->
+    let r = st (do_runtime_gone current !lk_state (ni i)) in
+    if List.mem (int_of_string i) !lk_zombies then begin
+      lk_zombies := List.filter (fun x -> x <> int_of_string i) !lk_zombies; "ok" end else r
+  | ["commit"; i; _; _] -> st (do_commit current !lk_state (ni i))
+  | ["pcommit"; p; _; _] -> st (do_commit current !lk_state (lk_kid p))
+  | ["pclose"; p] ->
+    if exists (lk_kid p) then begin
+      let r = st (do_close current !lk_state (lk_kid p)) in
+      lk_state := do_kill current !lk_state (ni p); r end else "noop"
+  | ["pdrop"; p] ->
+    if exists (lk_kid p) then begin
+      let r = st (do_drop current !lk_state (lk_kid p)) in
+      lk_state := do_kill current !lk_state (ni p); r end else "noop"
+  | ["pexit"; p] | ["pkill"; p] ->
+    if exists (lk_kid p) then begin lk_state := do_kill current !lk_state (ni p); "ok" end else "noop"
+  | ["holder"] ->
+    (match (!lk_state).st_fs.f_lock, (!lk_state).st_flock with
+     | LAbsent, _ -> "absent" | _, Some _ -> "held" | _, None -> "free")
+  | ["snapshot"] ->
+    let f = (!lk_state).st_fs in
+    let lock = (match f.f_lock with LAbsent -> "absent" | LEmpty -> "empty" | LPid p -> "P" ^ string_of_int (int_of_nat p)) in
+    let dirs = List.concat [ (if f.f_std then ["manifest"; "sstables"] else []); (if f.f_ver then ["versioned_index"] else []);
+                             (if f.f_vlog then ["vlog"] else []); (if f.f_std then ["wal"] else []) ] in
+    Printf.sprintf "snap lock=%s dirs=%s data=%d base=%b" lock (if dirs = [] then "-" else String.concat "+" dirs) (int_of_nat f.f_data) f.f_base
+  | ["get"; _; _] | ["pget"; _; _] | ["ls"] | ["clonedrop"; _] -> "skip"
+  | _ -> "bad-command"
+
 let () =
   try
     while true do
@@ -215,6 +272,7 @@ let () =
             | "wal" :: rest -> wal_cmd rest
             | "e2" :: rest -> e2_cmd rest
             | "ck" :: rest -> ck_cmd rest
+            | "lk" :: rest -> lk_cmd rest
             | _ -> "bad-command"
           with
           | Not_found -> "error:not-found"
